@@ -47,7 +47,7 @@ namespace akb {
   int64_t next_handle = 1;
   thread_local std::string last_error;
   thread_local std::string last_string;
-  // never destroyed: handle maps that are torn down at process exit still run TokenDeleter, which must find these alive
+  // heap-allocated and never destroyed: deleters may still run while static objects are torn down at exit
   std::mutex& released_mutex = *new std::mutex();
   std::vector<int64_t>& released_tokens = *new std::vector<int64_t>();
 
